@@ -14,7 +14,7 @@
    NOT modelled (decided by search only — clifs -mode fs: generated trees x invocation shapes against a reference of the
    documented rules): flag parsing, createTasks / NewTask (which files are selected and where they go), filter
    patterns, attribute preservation, stdin/stdout plumbing. *)
-From MV Require Import Base.MvBytes Cli.CliModel Cli.CliProofs Cli.CliFinal Cli.ConcatModel Cli.ConcatProofs.
+From MV Require Import Base.MvBytes Cli.CliModel Cli.CliProofs Cli.CliFinal Cli.ConcatModel Cli.ConcatProofs Cli.GlobModel Cli.GlobSpec Cli.GlobProofs.
 
 Theorem inplace_task_spec : forall p orig r outs f,
   f p = Some orig -> concat outs = payload orig r ->
@@ -65,3 +65,42 @@ Print Assumptions bundle_reader_complete.
 Example bundle_nonvacuous :
   fst (fst (read_sched (cr_init [[97; 98; 99]; []; [100]] [59; 10]) (repeat (2%nat, 1%nat) 12))) = [97; 98; 99; 59; 10; 59; 10; 100].
 Proof. vm_compute. reflexivity. Qed.
+
+(* ---------- which files are processed: --match / --include / --exclude ----------
+   Cli/GlobModel.v restates compilePattern for glob patterns (regexp.QuoteMeta, then strings.ReplaceAll of \*\* by .* , of \*
+   by [^/]* and of \? by [^/] , anchored) and fileFilter; tied on 3,000 cases per run through a verif test hook: the bytes
+   of the regular expression the real compilePattern builds, what Go's regexp then matches, and fileFilter's decisions.
+   For EVERY pattern (every byte string not starting with ~): the string-level pipeline produces exactly the item-wise
+   translation of the glob — no replacement fires on a byte it was not meant for (literal backslashes, dots, three stars, a
+   leading \~); the anchored match of those items is the meaning of the glob (Cli/GlobSpec.gmatch: ** any string without a
+   line feed, * any string without /, ? exactly one character other than /); and fileFilter accepts a path iff some --match
+   pattern (when there is one) matches its base name and the LAST include / exclude pattern matching the path is an include.
+   While the model was written, `?` turned out to be compiled to `[^/]?` (zero or one character): K130, repaired.
+   Trusted: Go's regexp for the fragment ^ literal .* [^/]* [^/] $ (its matches are compared on every case); `?` matches
+   one character in Go and one byte in the model (the same for ASCII names); patterns starting with ~ are regular
+   expressions handed to Go's regexp as they are and are outside the model. *)
+Theorem glob_compiles_item_by_item : forall g, compile_src g = items_src (glob_tokens g).
+Proof. exact compile_src_items. Qed.
+Print Assumptions glob_compiles_item_by_item.
+
+Theorem compiled_glob_matches_what_the_glob_means : forall g p,
+  glob_matches g p = true <-> gmatch (strip_tilde_escape g) p.
+Proof. exact glob_matches_spec. Qed.
+Print Assumptions compiled_glob_matches_what_the_glob_means.
+
+Theorem file_filter_decides_as_documented : forall matches filters path,
+  file_filter matches filters path = true <->
+  ((matches = [] \/ exists g, In g matches /\ glob_matches g (base_name path) = true) /\
+   (last_decision filters path = None \/ last_decision filters path = Some true)).
+Proof. exact file_filter_spec. Qed.
+Print Assumptions file_filter_decides_as_documented.
+
+(* non-vacuity: the README's example — exclude src/*/**, include src/foo/** — and a question mark *)
+Example filters_nonvacuous :
+  let b := fun (s : list Z) => s in
+  let excl := b [115; 114; 99; 47; 42; 47; 42; 42] in                 (* src/*/** *)
+  let incl := b [115; 114; 99; 47; 102; 111; 111; 47; 42; 42] in      (* src/foo/** *)
+  file_filter [] [(false, excl); (true, incl)] (b [115; 114; 99; 47; 102; 111; 111; 47; 97]) = true /\    (* src/foo/a *)
+  file_filter [] [(false, excl); (true, incl)] (b [115; 114; 99; 47; 98; 97; 114; 47; 97]) = false /\     (* src/bar/a *)
+  glob_matches (b [97; 63]) (b [97]) = false /\ glob_matches (b [97; 63]) (b [97; 98]) = true.
+Proof. vm_compute. repeat split; reflexivity. Qed.
